@@ -410,6 +410,12 @@ fn check_case(c: &Case) -> Result<(), String> {
             if c.pos == Pos::SeqOfOptions {
                 return Ok(());
             }
+            // as a mapping key next to the sibling key `None`: `"null"` / `"~"` / `""` and `null`
+            // are one key node for the reader (style is not part of a key, C04) - not a document
+            // of the domain
+            if c.pos == Pos::MapKey && (s.is_empty() || s == "~" || s.eq_ignore_ascii_case("null")) {
+                return Ok(());
+            }
             rt(Some(s.clone()), None::<String>, c.pos, o).map(|_| ())
         }
         Val::Bytes(b) => {
